@@ -28,7 +28,7 @@ RULE = ("Each run = one generated symbolic metric (dim 2/3/4; diagonal, "
         "was computed. Distinct = distinct (dim, family, simplify, request "
         "order).")
 PROBES = ['nondiagonal_metric', 'simplify_true', 'simplify_false',
-          'special_family',
+          'special_family', 'earlier_instance_in_session',
           'riemann_down_from_cached_uddd', 'riemann_down_direct',
           'ricci_from_cached_uddd', 'ricci_direct', 'dim2', 'dim3', 'dim4',
           'repeated_request']
@@ -69,7 +69,7 @@ def _entry(g, dim, kind, diag, sign):
 
 SPECIAL = ['double_null2', 'ppwave4', 'radiation_flrw4', 'zero_minor3',
            'reissner_nordstrom4', 'kasner4', 'schwarzschild4', 'sphere2',
-           'null_first3']
+           'null_first3', 'abs_wall3', 'abs_wall2']
 
 
 def generate(rng, tier):
@@ -79,7 +79,8 @@ def generate(rng, tier):
         # leading minors, R = 0 with Ricci != 0, true vacuum)
         name = g.pick(SPECIAL)
         dim = int(name[-1])
-        simp = (name in ('double_null2', 'sphere2') and g.chance(0.5)) or (
+        simp = (name in ('double_null2', 'sphere2', 'abs_wall2', 'abs_wall3')
+                and g.chance(0.5)) or (
             name == 'reissner_nordstrom4' and g.chance(0.15))
         ops = [{'op': 'GET', 'key': g.pick(KEYS)}
                for _ in range(g.randint(3, 8))]
@@ -87,6 +88,10 @@ def generate(rng, tier):
             ops.append({'op': 'GET', 'key': 'Einstein_down'})
         pts = [[[g.randint(1, 9), g.pick([2, 3, 4, 5, 7])]
                 for _ in range(dim)] for _ in range(3)]
+        if name.startswith('abs_wall'):
+            # sign-sensitive metric: sample both sides of the wall
+            for n, p_ in enumerate(pts):
+                p_[-1][0] = -p_[-1][0] if n % 2 == 0 else p_[-1][0]
         return {'config': {'dim': dim, 'family': 'special:' + name,
                            'special': name, 'diag': [], 'off': {},
                            'conf': None, 'simplify': bool(simp),
@@ -132,7 +137,8 @@ def generate(rng, tier):
                     for _ in range(dim)])
     return {'config': {'dim': dim, 'family': family, 'diag': diag,
                        'off': off, 'conf': conf, 'simplify': simp,
-                       'points': pts}, 'ops': ops}
+                       'points': pts,
+                       'prelude': dim == 2 and g.chance(0.3)}, 'ops': ops}
 
 
 def fixup(run):
@@ -149,6 +155,8 @@ def simplify(run):
         return
     if cfg['simplify']:
         c = copy.deepcopy(run); c['config']['simplify'] = False; yield c
+    if cfg.get('prelude'):
+        c = copy.deepcopy(run); c['config']['prelude'] = False; yield c
     for k in sorted(cfg['off']):
         c = copy.deepcopy(run); del c['config']['off'][k]; yield c
     if len(cfg['points']) > 1:
@@ -188,6 +196,13 @@ def special_metric(name, sp):
         return [x, y, z], sp.Matrix([[1 + x ** 2, 1 + x ** 2, 0],
                                      [1 + x ** 2, 1 + x ** 2, y + 2],
                                      [0, y + 2, 1]])
+    if name in ('abs_wall3', 'abs_wall2'):
+        tr, xr, zr = sp.symbols('t x z', real=True)
+        w = sp.exp(-sp.Rational(3, 2) * sp.Abs(zr))
+        if name == 'abs_wall2':
+            return [tr, zr], sp.Matrix([[-w * (1 + tr ** 2), 0], [0, 1]])
+        return [tr, xr, zr], sp.Matrix([[-w, 0, 0], [0, w, xr / 5],
+                                        [0, xr / 5, 1]])
     if name == 'null_first3':
         return [x, y, z], sp.Matrix([[0, 1 + y ** 2, 0],
                                      [1 + y ** 2, x, 0],
@@ -359,6 +374,16 @@ def execute(run):
         return {'violations': [], 'digest': tr.hexdigest(), 'n_ops': 0,
                 'faults': {}, 'probes': probes, 'state_sig': 'singular',
                 'nontrivial': False, 'vacuous': len(run['ops'])}
+    if cfg.get('prelude') and not cfg.get('special'):
+        pos = [sp.Symbol(str(x_), positive=True) for x_ in xs]
+        g0 = g.subs(dict(zip(xs, pos)))
+        pre = aurel.AurelCoreSymbolic(pos, verbose=False, simplify=False)
+        pre.data['gdown'] = g0
+        try:
+            pre['RicciS']
+            probe('earlier_instance_in_session')
+        except Exception:  # noqa: BLE001 - the prelude claims nothing
+            pass
     rel = aurel.AurelCoreSymbolic(xs, verbose=False,
                                   simplify=cfg['simplify'])
     rel.data['gdown'] = g
